@@ -527,7 +527,7 @@ func main() {
 	R = mon.Start("C13", tier)
 	R.Rule = "A: every pool of 1..4 scripted connections x alive{T,F} x seqno{0..4} x rtt{0,1,2} ms x both strategies x every previous choice (incl. none) goes through the real updateBest and the choice is compared with a specification function written from the statement (all calls compared; distinct = classes (k, strategy, rule branch, allowed set, kept/moved)). " +
 		"C: every registration order of 1..4 connections (ids registered out of order, as servers finish connecting) x heads{3,4,5} x every liveness pattern x both strategies: choice after a refresh against the same specification function with configuration order = id order. " +
-		"B: real connections + real Run loop under random and directed schedules driven from 6 hook points; per scenario: porcupine (set->max per connection, switch, wait(n)=ok legal iff head of the best connection >= n, error results always legal), completeness (head >= n published on the connection that was best during the whole wait, >= 300 ms before the deadline, call made >= 100 ms before it => ok), deadline (return <= 2 s after the timeout or the cancellation, <= 500 ms when no directed hold was active), an error only once the timeout elapsed or the context was cancelled (which error is not judged), BestMasterchainClient's head (and client) from a connection that was the choice during the call, directed: cancellation long before the timeout, one late insufficient head, head published into a full update channel for a registered waiter, awaited head queued together with a newer head of another connection (both orders), random: timed stalls of the Run loop while all connections publish, ticker-driven refresh under head traffic, 30 s watchdog with goroutine dump, race detector; non-trivial = a scenario in which at least one hook point was reached; distinct = distinct global orders of (actor, hook point) events"
+		"B: real connections + real Run loop under random and directed schedules driven from 6 hook points; per scenario: porcupine (set->max per connection, switch, wait(n)=ok legal iff head of the best connection >= n, error results always legal), completeness (head >= n published on the connection that was best during the whole wait, >= 300 ms before the deadline, call made >= 100 ms before it => ok), deadline (return <= 2 s after the timeout or the cancellation, <= 500 ms when no directed hold was active), an error only once the timeout elapsed or the context was cancelled (which error is not judged), BestMasterchainClient's head (and client) from a connection that was the choice during the call, directed: cancellation long before the timeout, one late insufficient head, head published into a full update channel for a registered waiter, awaited head queued together with a newer head of another connection (both orders), refresh to a connection one block behind followed by a wait for the seqno the former choice had delivered (directed, and as a quiet epilogue of every random switch scenario), random: timed stalls of the Run loop while all connections publish, ticker-driven refresh under head traffic, 30 s watchdog with goroutine dump, race detector; non-trivial = a scenario in which at least one hook point was reached; distinct = distinct global orders of (actor, hook point) events"
 	R.Assume("liveness and round-trip time of a connection come from a live liteclient in production; here they are scripted (pool.VerifConnection wraps the real *connection: head, lock and publication are the production code)")
 	R.Assume("seqnos near 2^32 are not part of the grid (seqno+1 overflows there; no masterchain reaches that height)")
 	R.Assume("completeness is only decided for waits during which the best connection did not change")
